@@ -27,15 +27,7 @@ Theorem C06_assigned_exactly_once : forall (sizes : list Z) (items : list item) 
   (forall u, NoDup (all_units items ord) -> In u (all_units items ord) ->
      exists r, (r < W)%nat /\ In u (rank_units asg r) /\ forall r', In u (rank_units asg r') -> r' = r) /\
   Permutation (concat (partition_result W asg)) (all_loads items).
-Proof.
-  intros sizes items ord Hne HP W asg.
-  pose proof (partition_units sizes items ord) as HU.
-  pose proof (partition_ranks sizes items ord Hne) as HR.
-  split; [exact HU|]. split; [exact HR|]. split; [|split].
-  - intro w. unfold asg, W. rewrite (bucket_sum w (length sizes) _ HR), HU. reflexivity.
-  - intros u ND Hin. exact (exactly_one_rank W asg (all_units items ord) u HU HR ND Hin).
-  - unfold asg, W. rewrite (rank_loads_perm (length sizes) _ HR), HU. exact (all_units_loads items ord HP).
-Qed.
+Proof. exact assigned_exactly_once. Qed.
 Print Assumptions C06_assigned_exactly_once.
 
 (* LOAD ACCOUNTING.  The load the partitioner tracks for rank r ends at its starting load (its non-replicated
@@ -58,11 +50,7 @@ Theorem C06_balance : forall (sizes : list Z) (items : list item) (ord : list lo
   forall r s, last_size asg r = Some s ->
   (exists u, In u (rank_units asg r) /\ u_size u = s) /\
   forall q, (q < length sizes)%nat -> nth r final 0 <= nth q final 0 + s.
-Proof.
-  intros sizes items ord Hne Hit HP final asg r s Hl. split.
-  - exact (last_size_in asg r s Hl).
-  - exact (partition_balance sizes items ord Hne Hit HP r s Hl).
-Qed.
+Proof. exact balance_two_pass. Qed.
 Print Assumptions C06_balance.
 
 (* a rank received replicated work exactly when last_size is defined for it *)
@@ -70,6 +58,69 @@ Theorem C06_received_work_iff : forall (asg : list (nat * wunit)) (r : nat),
   (exists s, last_size asg r = Some s) <-> rank_units asg r <> [].
 Proof. exact last_size_some_iff. Qed.
 Print Assumptions C06_received_work_iff.
+
+(* CONSOLIDATION (consolidate_replicated_entries as run by _gather_manifest, dedup = the generated default).
+   For every list of per-rank manifests (W >= 1) whose keys are distinct per rank and in which a path is replicated
+   on every rank where it appears or on none, if consolidation does not raise:
+   - the number of ranks is unchanged and every rank's private entries are untouched (same entries, same order);
+   - ranks >= 1 hold nothing but their private entries (replicated entries live only under rank 0);
+   - for every path p that carries a replicated ChunkedTensorEntry on some rank: rank 0 holds ONE entry for p (its
+     keys are distinct), replicated, whose chunk list is a permutation of ALL chunks that the ranks hold for p and is
+     sorted by offsets (Python list order); p is not a key of any rank >= 1;
+   - every other replicated entry of any rank is found under rank 0. *)
+Theorem C06_consolidate_complete : forall (ms ms' : list manifest),
+  ms <> [] -> keys_distinct ms -> consistent ms -> consolidate ms = Some ms' ->
+  length ms' = length ms /\
+  (forall r, strip_repl (nth r ms' []) = strip_repl (nth r ms [])) /\
+  (forall r, (1 <= r)%nat -> nth r ms' [] = strip_repl (nth r ms [])) /\
+  NoDup (map fst (nth 0 ms' [])) /\
+  (forall p, In p (group_paths ms) ->
+     (exists meta cs, lookup p (nth 0 ms' []) = Some (EChunked true meta cs) /\
+                      Permutation cs (all_repl_chunks ms p) /\ sorted_by chunk_leb cs) /\
+     (forall r, (1 <= r)%nat -> ~ In p (map fst (nth r ms' [])))) /\
+  (forall m p e, In m ms -> In (p, e) m -> is_repl e = true -> ~ In p (group_paths ms) ->
+     lookup p (nth 0 ms' []) = Some e).
+Proof. exact consolidate_complete. Qed.
+Print Assumptions C06_consolidate_complete.
+
+(* ... and consolidation does not raise (no ValueError) when two ranks never hold different replicated entries for
+   the same non-chunked path - after partitioning a whole-path object sits on exactly one rank. *)
+Theorem C06_consolidate_no_error : forall (ms : list manifest),
+  keys_distinct ms ->
+  (forall m m' p e e', In m ms -> In m' ms -> In (p, e) m -> In (p, e') m' ->
+     is_repl e = true -> is_repl e' = true -> ~ In p (group_paths ms) -> e = e') ->
+  exists ms', consolidate ms = Some ms'.
+Proof. exact consolidate_no_error. Qed.
+Print Assumptions C06_consolidate_no_error.
+
+(* SELECTION KEEPS THE OBJECT COMPLETE.  A replicated chunked tensor p (same entry, chunks cs, on every rank; its
+   write loads are its chunks 0..n-1): after the partitioning (any W >= 1, any loads, any visit order) and the
+   rank-local selection of _partition_replicated_write_reqs, the chunk lists that the ranks keep for p are TOGETHER a
+   permutation of cs - nothing lost, nothing twice.  With C06_consolidate_complete: the consolidated entry is the
+   sorted list of exactly the object's chunks, which is what restore reads on every rank. *)
+Theorem C06_selected_chunks_complete :
+  forall (sizes : list Z) (items : list item) (ord : list load) (entries : manifest) (p : Z) rp meta (cs : list chunk),
+  sizes <> [] -> Permutation ord (partitionables items) ->
+  lookup p entries = Some (EChunked rp meta cs) ->
+  map l_idx (filter (fun l => l_path l =? p) (all_loads items)) = map Z.of_nat (seq 0 (length cs)) ->
+  Permutation
+    (flat_map (fun r => selected_chunks entries (rank_loads (snd (partition sizes items ord)) r) p) (seq 0 (length sizes)))
+    cs.
+Proof. exact selected_chunks_complete. Qed.
+Print Assumptions C06_selected_chunks_complete.
+
+(* ABSENT SOMEWHERE => PRIVATE (_calculate_replicated_entries), for EVERY glob matcher fm, every glob list, every
+   world size, every per-rank key list (distinct keys) and sharded-value predicate: a path is treated as replicated
+   IFF on every rank it is a key, matches some glob and its value is not sharded.  Hence a path missing from one
+   rank's matched list is never replicated, and a path present and matching on all ranks is. *)
+Theorem C06_absent_somewhere_is_private :
+  forall (fm : Z -> Z -> bool) (globs : list Z) (ranks : list (list Z * (Z -> bool))) (p : Z),
+  Forall (fun ks => NoDup (fst ks)) ranks ->
+  (In p (replicated_paths fm globs ranks) <->
+   ranks <> [] /\ forall ks, In ks ranks ->
+     In p (fst ks) /\ (exists g, In g globs /\ fm p g = true) /\ snd ks p = false).
+Proof. exact replicated_paths_iff. Qed.
+Print Assumptions C06_absent_somewhere_is_private.
 
 (* Non-vacuity: W = 3, starting loads [5;0;2]; a whole-path unit of size 4 (path 0), a chunked path 1 with chunks
    of 4, 1 and 7 bytes visited in the order 7, 4, 1. *)
@@ -89,3 +140,25 @@ Proof.
   - vm_compute. apply perm_trans with [(1, 0, 4); (1, 2, 7); (1, 1, 1)]; [apply perm_swap|].
     apply perm_skip. apply perm_swap.
 Qed.
+
+(* consolidation after partitioning: rank 1 kept chunks 2 and 0 of path 7, rank 0 kept chunk 1 and the whole
+   object 3; rank 1 also has a private entry 9 *)
+Example C06_example_consolidate :
+  consolidate [[(7, EChunked true 5 [([4], 11)]); (3, EOther true 30); (8, EOther false 80)];
+               [(7, EChunked true 5 [([0], 10); ([8], 12)]); (9, EOther false 90)]]
+  = Some [[(8, EOther false 80); (7, EChunked true 5 [([0], 10); ([4], 11); ([8], 12)]); (3, EOther true 30)];
+          [(9, EOther false 90)]].
+Proof. vm_compute. reflexivity. Qed.
+
+(* path 2 is missing on rank 1, path 1 is sharded on rank 1, path 3 matches no glob: only path 0 is replicated *)
+Example C06_example_replicated_paths :
+  replicated_paths (fun p g => (g =? 0) && (p <? 3)) [0]
+    [([0; 1; 2; 3], fun _ => false); ([3; 1; 0], fun p => p =? 1)] = [0].
+Proof. vm_compute. reflexivity. Qed.
+
+(* selection on rank 1 of the run above (it was given whole object 0 and chunk 0 of path 1) *)
+Example C06_example_select :
+  select [(0, EOther true 30); (1, EChunked true 5 [([0], 10); ([4], 11); ([5], 12)])]
+         [(0, 0, 3); (0, 1, 1); (1, 0, 4)]
+  = ([(0, EOther true 30); (1, EChunked true 5 [([0], 10)])], [(0, [0; 1]); (1, [0])]).
+Proof. vm_compute. reflexivity. Qed.
